@@ -139,8 +139,9 @@ def path_point(path, u):
 
 
 def rand_vector(rng, n=97):
-    """numbers consumed cyclically by the harness op `pzrand`: [0] mu, [1] TK, then log-molalities / parameters"""
-    v = [10 ** rng.uniform(-3, 0.9), rng.choice([298.15, 298.15, rng.uniform(273.15, 373.15)])]
+    """numbers consumed by the harness op `pzrand`: [0] mu, [1] TK, [2] patm, then (cyclically) log-molalities / parameters"""
+    v = [10 ** rng.uniform(-3, 0.9), rng.choice([298.15, 298.15, rng.uniform(273.15, 373.15), rng.uniform(255.0, 273.0)]),
+         rng.choice([1.0, 1.0, 10 ** rng.uniform(0.01, 3.2)])]          # [2]: pressure, atm (branch patm_x > 1 of pitzer())
     for _ in range(n):
         r = rng.random()
         if r < 0.5:
